@@ -165,3 +165,70 @@ func ruleCmp3(rule string) func(*Ctx) {
 		}
 	}
 }
+
+// ruleSweepOrder: the two sort comparators implement the sweep's processing order: local minima bottom-up
+// (larger Y first), intersections bottom-up and, within one Y, left to right.
+func ruleSweepOrder(rule string) func(*Ctx) {
+	return func(c *Ctx) {
+		for _, f := range lessClosures(c) {
+			fn := c.fname(f)
+			probe := (&explorer{c: c, f: f}).explore(nil)
+			keySet := map[string]bool{}
+			for _, p := range probe {
+				for _, cd := range p.conds {
+					for _, k := range keyRe.FindAllString(cd.expr, -1) {
+						keySet[k] = true
+					}
+				}
+				for _, r := range p.ret {
+					for _, k := range keyRe.FindAllString(r.expr, -1) {
+						keySet[k] = true
+					}
+				}
+			}
+			var ky, kx string
+			for k := range keySet {
+				if strings.HasSuffix(k, ".Y") {
+					ky = k
+				}
+				if strings.HasSuffix(k, ".X") {
+					kx = k
+				}
+			}
+			if ky == "" {
+				fatalf("%s: no Y key in a sweep comparator", fn)
+			}
+			bad := ""
+			for ay := int64(0); ay < 3; ay++ {
+				for by := int64(0); by < 3; by++ {
+					for ax := int64(0); ax < 3; ax++ {
+						for bx := int64(0); bx < 3; bx++ {
+							atoms := map[string]absVal{ky: intVal(ay), strings.Replace(ky, "[i]", "[j]", 1): intVal(by)}
+							if kx != "" {
+								atoms[kx] = intVal(ax)
+								atoms[strings.Replace(kx, "[i]", "[j]", 1)] = intVal(bx)
+							}
+							outs := (&explorer{c: c, f: f, atoms: atoms}).explore(nil)
+							if len(outs) != 1 || len(outs[0].ret) != 1 || outs[0].ret[0].abs.k != aBool {
+								fatalf("%s: undecided", fn)
+							}
+							want := ay > by
+							if kx != "" {
+								want = ay > by || (ay == by && ax < bx)
+							}
+							if outs[0].ret[0].abs.b != want && bad == "" {
+								bad = fmt.Sprintf("less(a,b)=%v for a=(x%d,y%d) b=(x%d,y%d); the sweep order requires %v", outs[0].ret[0].abs.b, ax, ay, bx, by, want)
+							}
+						}
+					}
+				}
+			}
+			spec := "larger Y first (bottom-up)"
+			if kx != "" {
+				spec = "larger Y first (bottom-up), then smaller X first (left to right)"
+			}
+			c.check(bad == "", rule, fmt.Sprintf("%s:%s", rule, fn), f.Pos(), fn, "comparator = "+spec, bad,
+				"the sweep processes scanbeams from the bottom up and swaps intersecting edges left to right so that they are adjacent when swapped; another order mis-pairs edges (visible as a lost X-mirror symmetry of the result)")
+		}
+	}
+}
